@@ -35,9 +35,19 @@ def stateJ (c : Content) : Json :=
 
 def natJ (n : Nat) : Json := .num (.fromNat n)
 
+/-- the time index `Props/C09` states for a successful row of this worker (steady state: not
+    observable, the container takes the last row) -/
+def specIndex (j : Json) : Except String (Option (List Rat)) := do
+  match ← jStr (← field j "kind") with
+  | "tc" => pure (some (tcIndex (← jList jRat (← field j "tps"))))
+  | "proto" => pure (some (protoIndex (← jNat (← field j "steps")) 0 true (← jProto (← field j "proto"))))
+  | "ptc" => pure (some (ptcIndex (← jProto (← field j "proto")) (← jList jRat (← field j "tps"))))
+  | _ => pure none
+
 def runScan (j : Json) : Except String (Except Err Json) := do
   let c0 ← jContent (← field j "content")
   let w ← jWorker j
+  let spec ← specIndex j
   let rows ← jList (jPair jNat jRow) (← field j "rows")
   let mode ← jStr (← field j "mode")
   let kind ← jStr (← field j "kind")
@@ -73,7 +83,11 @@ def runScan (j : Json) : Except String (Except Err Json) := do
       | some e, some v => some (Json.arr #[e.1, viewJ v])
       | _, _ => none
     let caller ← h2.read 0
-    pure (Json.mkObj [("res", .arr out.toArray), ("caller", stateJ caller)])
+    let gridOk := memo.all fun iv =>
+      iv.2.nan || match spec with
+        | none => true
+        | some idx => (iv.2.segs.flatMap fun rows => rows.map (·.1)) == idx
+    pure (Json.mkObj [("res", .arr out.toArray), ("caller", stateJ caller), ("grid_ok", .bool gridOk)])
 
 def handle (j : Json) : Except String Json := do
   pure (resJ id (← runScan j))
